@@ -7,6 +7,7 @@ def constructs(rnd=None):
         ("$WAKKA", "__xonsh__.env['WAKKA']"),
         ("$x", "__xonsh__.env['x']"),
         # a variable may be called like a keyword
+        ("$(echo @(lambda: 1))", "__xonsh__.subproc_captured('echo', *__xonsh__.list_of_strs_or_callables(lambda: 1))"),
         ("$if", "__xonsh__.env['if']"),
         ("$None", "__xonsh__.env['None']"),
         ("$(echo $class $HOME)", "__xonsh__.subproc_captured('echo', __xonsh__.env['class'], __xonsh__.env['HOME'])"),
@@ -57,6 +58,8 @@ def constructs(rnd=None):
 
 # contexts: a Python program with one or more `{}` Load-position holes (outside assignment/augassign/annotation/del targets, not right after '@')
 LOAD_CONTEXTS = [
+    # f-string fields that hold a lambda besides the construct (the check for unparenthesised lambdas counts brackets of the field)
+    "x = f\"\"\"{{{} or (lambda: 0)}}\"\"\"\n", "x = f\"\"\"{{[{}, (lambda: 1)()]!r:>9}}\"\"\"\n", "x = f\"\"\"{{(lambda: 0) and {}}}\"\"\"\n", "x = f\"\"\"{{{}.rtn or (lambda a=({}): a)()}}\"\"\"\n",
     "x = {}\n", "f({})\n", "f(k={})\n", "f(a, {}, *b, c={}, **d)\n", "a[{}]\n", "a[{}:{}]\n", "a[1, {}]\n", "[{} for i in y]\n", "[i for i in {}]\n", "[i for i in y if {}]\n",
     "{{k: {} for k in y}}\n", "{{ {}: 1 for k in y}}\n", "({} for i in y)\n", "f({} for i in y)\n", "x = lambda: {}\n", "x = lambda a={}: a\n", "x = {} if a else b\n", "x = a if {} else b\n",
     "x = a if b else {}\n", "x = ({}, 1)\n", "x = [{}, {}]\n", "x = {{ {}: 1}}\n", "x = {{1: {}}}\n", "x = {{ {} }}\n", "x = -{}\n", "x = not {}\n", "x = {} + 1\n", "x = 1 + {} * 2\n", "x = {}.attr\n",
